@@ -45,6 +45,19 @@ pub const DLOC: &str = "dbg_loc";
 pub const DVAR: &str = "dbg_var";
 pub const DMATCH: &str = "dbg_match";
 
+/// A flag that never signals in an ordinary run but ends a run that does not terminate: it signals after two million polls
+/// (every loop of the interpreters polls), which turns a hang into an ordinary `Cancelled` outcome that the comparison with
+/// the model reports together with the input.
+pub struct WatchdogFlag { count: std::cell::Cell<u64> }
+impl WatchdogFlag { pub fn new() -> WatchdogFlag { WatchdogFlag { count: std::cell::Cell::new(0) } } }
+impl CancellationFlag for WatchdogFlag {
+    fn check(&self, at: &'static str) -> Result<(), CancellationError> {
+        self.count.set(self.count.get() + 1);
+        if self.count.get() > 2_000_000 { return Err(CancellationError(at)); }
+        Ok(())
+    }
+}
+
 pub struct CountingFlag { pub count: std::cell::Cell<u64>, pub fail_from: Option<u64>, pub trace: std::cell::RefCell<Vec<&'static str>> }
 impl CountingFlag {
     pub fn new(fail_from: Option<u64>) -> CountingFlag { CountingFlag { count: std::cell::Cell::new(0), fail_from, trace: std::cell::RefCell::new(Vec::new()) } }
@@ -85,7 +98,7 @@ pub fn execute<'t>(file: &File, tree: &'t Tree, info: &TreeInfo<'t>, graph: &mut
 }
 pub fn execute_fresh<'t>(file: &File, tree: &'t Tree, info: &TreeInfo<'t>, supplied: &[(String, GV)], lazy: bool, debug: bool) -> Obs {
     let mut graph = Graph::new();
-    execute(file, tree, info, &mut graph, supplied, lazy, debug, &NoCancellation)
+    execute(file, tree, info, &mut graph, supplied, lazy, debug, &WatchdogFlag::new())
 }
 
 /// Per-stanza raw matches (stanza queries) as a Coq term `list (list qmatch)`.
